@@ -3,6 +3,7 @@ package main
 import (
 	"encoding/json"
 	"fmt"
+	"os"
 	"strings"
 
 	"github.com/zeromicro/go-zero/core/limit"
@@ -32,6 +33,8 @@ func guard(e *vsched.Exec) *vx.Verdict {
 // behaviour and is judged as it is.
 var resentStreak int
 
+var debugLog = os.Getenv("C03_DEBUG_LOG") != ""
+
 func skipResent(e *vsched.Exec) bool {
 	for _, l := range e.Log() {
 		if l == "!resent" {
@@ -53,7 +56,7 @@ func openFence(e *env) {
 
 type pRec struct {
 	T     string `json:"t"`
-	Fault string `json:"fault,omitempty"` // "on" | "off": record of the fault thread
+	Fault string `json:"fault,omitempty"` // "on" | "off" | "flush": record of the fault thread
 	Code  int    `json:"code"`
 	Err   bool   `json:"err,omitempty"`
 	Store string `json:"store"`
@@ -62,7 +65,26 @@ type pRec struct {
 // periodScenario: calls[i] = number of Take("a") by thread i; withFault adds a thread that
 // switches a store fault on and off again.
 func periodScenario(period, quota int, calls []int, withFault bool) vx.Scenario {
-	name := fmt.Sprintf("period(p=%d,q=%d) takes=%v fault=%v", period, quota, calls, withFault)
+	var script []string
+	if withFault {
+		script = []string{"on", "off"}
+	}
+	return periodScenarioX(fmt.Sprintf("period(p=%d,q=%d) takes=%v fault=%v", period, quota, calls, withFault), period, quota, calls, script)
+}
+
+// periodFaultScenario: the fault thread runs script over {on, off, flush}; flush = the server
+// loses its script cache and stays reachable (the oracle does not change).
+func periodFaultScenario(period, quota int, calls []int, script []string) vx.Scenario {
+	return periodScenarioX(fmt.Sprintf("period(p=%d,q=%d) takes=%v faults=[%s]", period, quota, calls, strings.Join(script, ",")), period, quota, calls, script)
+}
+
+func periodScenarioX(name string, period, quota int, calls []int, script []string) vx.Scenario {
+	for _, f := range script {
+		if f != "on" && f != "off" && f != "flush" {
+			panic("bad period fault op " + f)
+		}
+	}
+	withFault := len(script) > 0
 	body := func() {
 		e := getEnv()
 		e.reset()
@@ -87,12 +109,15 @@ func periodScenario(period, quota int, calls []int, withFault bool) vx.Scenario 
 		}
 		if withFault {
 			vsched.GoNamed("fault", false, func() {
-				for _, on := range []bool{true, false} {
+				for _, f := range script {
 					vsched.Op("fault")
-					e.fault(on)
-					f := "off"
-					if on {
-						f = "on"
+					switch f {
+					case "on":
+						e.fault(true)
+					case "off":
+						e.fault(false)
+					case "flush":
+						e.loseScripts()
 					}
 					b, _ := json.Marshal(pRec{T: "fault", Fault: f})
 					vsched.Log("%s", b)
@@ -122,7 +147,9 @@ func periodScenario(period, quota int, calls []int, withFault bool) vx.Scenario 
 				return vx.Verdict{Class: "harness-bad-log", Msg: err.Error()}
 			}
 			if rc.Fault != "" {
-				faulty = rc.Fault == "on"
+				if rc.Fault != "flush" { // a lost script cache leaves the store reachable
+					faulty = rc.Fault == "on"
+				}
 				sig = append(sig, "F"+rc.Fault)
 				order = append(order, "fault-"+rc.Fault)
 				continue
@@ -192,6 +219,11 @@ type tCall struct{ inst, n int }
 //
 //	down / up    an outage begins / ends (every store command fails in between)
 //	one1 / one2  exactly the next 1 / 2 store commands fail (a single lost command, a blip)
+//	pdown / pup  a partial outage begins / ends: the store answers PING and refuses everything else
+//	             (the monitor's ping succeeds while the limiter's script still fails)
+//	flush        the server loses its script cache (SCRIPT FLUSH) and stays reachable; a script made
+//	             of flush steps only leaves the store reachable throughout: every call is then held
+//	             to the exact shared-bucket oracle in log order, like a scenario without faults
 //
 // Two ways of placing the harness threads' operations:
 //   - Op points (tokenScenario): a scheduling point before every call / fault step; leaving a
@@ -252,11 +284,17 @@ func tokenFaultScenario(rate, burst int, threads [][]tCall, script []string, p, 
 
 func tokenScenarioX(name string, rate, burst int, threads [][]tCall, faults []string, yield bool) vx.Scenario {
 	for _, f := range faults {
-		if f != "down" && f != "up" && f != "one1" && f != "one2" {
+		if f != "down" && f != "up" && f != "one1" && f != "one2" && f != "flush" && f != "pdown" && f != "pup" {
 			panic("bad fault op " + f)
 		}
 	}
 	withFaults := len(faults) > 0
+	reachable := true // the store answers every command throughout the racing phase
+	for _, f := range faults {
+		if f != "flush" {
+			reachable = false
+		}
+	}
 	fillMs := int64((burst+rate-1)/rate+1) * 1000
 	body := func() {
 		e := getEnv()
@@ -279,6 +317,9 @@ func tokenScenarioX(name string, rate, burst int, threads [][]tCall, faults []st
 		}
 		logRec := func(rc tRec) {
 			b, _ := json.Marshal(rc)
+			if debugLog {
+				fmt.Fprintf(os.Stderr, "LOG %d %s\n", os.Getpid(), b)
+			}
 			vsched.Log("%s", b)
 		}
 		call := func(who string, c tCall) {
@@ -288,6 +329,9 @@ func tokenScenarioX(name string, rate, burst int, threads [][]tCall, faults []st
 			var got bool
 			e.counted(func() { got = lims[c.inst].AllowN(now, c.n) })
 			if e.resent.Swap(false) {
+				if debugLog {
+					fmt.Fprintf(os.Stderr, "LOG %d !resent\n", os.Getpid())
+				}
 				vsched.Log("!resent")
 			}
 			logRec(tRec{T: who, I: c.inst, N: c.n, NowMs: nowMs, Got: got, Before: before, After: state(c.inst, nowMs)})
@@ -315,6 +359,12 @@ func tokenScenarioX(name string, rate, burst int, threads [][]tCall, faults []st
 						e.failNext(1)
 					case "one2":
 						e.failNext(2)
+					case "flush":
+						e.loseScripts()
+					case "pdown":
+						e.partial(true)
+					case "pup":
+						e.partial(false)
 					}
 					logRec(tRec{T: "outage", Outage: f})
 				}
@@ -333,6 +383,7 @@ func tokenScenarioX(name string, rate, burst int, threads [][]tCall, faults []st
 			}
 		}
 		e.fault(false)
+		e.partial(false)
 		e.failNext(0)
 		logRec(tRec{T: "healed", NowMs: vsched.TimeNow().Sub(vsched.Epoch).Milliseconds()})
 		vsched.TimeSleep(msDur(settlePings * pingMs))
@@ -351,6 +402,7 @@ func tokenScenarioX(name string, rate, burst int, threads [][]tCall, faults []st
 	}
 	check := func(e *vsched.Exec) vx.Verdict {
 		getEnv().fault(false)
+		getEnv().partial(false)
 		getEnv().failNext(0)
 		if v := guard(e); v != nil {
 			return *v
@@ -373,6 +425,9 @@ func tokenScenarioX(name string, rate, burst int, threads [][]tCall, faults []st
 			}
 			switch {
 			case rc.Outage != "":
+				if rc.Outage == "flush" {
+					w.lost = true
+				}
 				sig = append(sig, "F"+rc.Outage)
 				order = append(order, "fault:"+rc.Outage)
 				continue
@@ -403,7 +458,7 @@ func tokenScenarioX(name string, rate, burst int, threads [][]tCall, faults []st
 				w.advance(rc.NowMs - lastMs)
 				lastMs = rc.NowMs
 			}
-			if !withFaults {
+			if reachable {
 				// the store is reachable throughout: every call of an instance in store mode is
 				// answered by the shared bucket, in log order
 				if class, msg := w.judgeAllow(rc.I, rc.N, rc.NowMs, rc.Before, rc.After, rc.Got); class != "" {
@@ -416,7 +471,7 @@ func tokenScenarioX(name string, rate, burst int, threads [][]tCall, faults []st
 		el := float64(lastMs) / 1000
 		one := float64(burst) + float64(rate)*el
 		sources := 1.0
-		if withFaults {
+		if !reachable {
 			sources = 3 // shared bucket + the in-process limiters of instances 1 and 2
 			for i, g := range perInst {
 				if float64(g) > 2*one {
@@ -462,6 +517,12 @@ func tokenScenarioX(name string, rate, burst int, threads [][]tCall, faults []st
 			}
 			return vx.Verdict{Class: class, Msg: fmt.Sprintf("order %v: store reachable and idle for %d ms, then at one instant (+%d ms) final call %d AllowN#%d(now,%d) = %v (instance %v -> %v), but the ONE shared bucket (burst %d) held %d: the statement demands %v", order, fillMs, rc.NowMs, k+1, rc.I, rc.N, rc.Got, rc.Before, rc.After, burst, had, want), Sig: "violation"}
 		}
+		// ... and none of the two calls may move its instance out of store mode: no fault is active
+		for k, rc := range final {
+			if rc.Before.alive && !rc.After.alive {
+				return vx.Verdict{Class: "token:fell-to-rescue-while-reachable:after-recovery", Msg: fmt.Sprintf("order %v: all faults over for %d ms, store reachable: final call %d AllowN#%d(now,%d) = %v left instance #%d answering from its in-process limiter (%v -> %v)", order, rc.NowMs-healedMs, k+1, rc.I, rc.N, rc.Got, rc.I, rc.Before, rc.After), Sig: "violation"}
+			}
+		}
 		return vx.Verdict{Sig: strings.Join(sig, " ")}
 	}
 	return vx.Scenario{Name: name, Body: body, Check: check, Horizon: 6000}
@@ -482,9 +543,16 @@ func scenarios(thorough bool) []vx.Scenario {
 		tokenScenario(2, 4, [][]tCall{{c(1, 4), c(1, 4)}, {c(2, 4), c(2, 4)}, {c(1, 4)}}, true),
 	}
 	bigAt := len(out) - 1
+	out = append(out, periodFaultScenario(1, 2, []int{2, 1, 1}, []string{"flush", "flush"}))
+	if thorough {
+		out = append(out, periodFaultScenario(2, 1, []int{2, 2}, []string{"on", "flush", "off"}))
+	}
 	// flapping store / single failing commands + recovery epilogue: {quick P, thorough P} (T=1 in
 	// both tiers; quick P<0: thorough only). Sizes measured (executions): see NOTES.md
 	flap, blips, blip21 := []string{"down", "up", "down", "up"}, []string{"one1", "one1"}, []string{"one2", "one1"}
+	// the server loses its script cache (stays reachable): alone (exact oracle), in the middle of
+	// an outage (= restart with persisted data), next to a single failing command
+	lost2, restart, blipLost, lostBlipLost := []string{"flush", "flush"}, []string{"down", "flush", "up"}, []string{"one1", "flush"}, []string{"flush", "one1", "flush"}
 	for _, f := range []struct {
 		rate, burst int
 		threads     [][]tCall
@@ -501,6 +569,13 @@ func scenarios(thorough bool) []vx.Scenario {
 		{2, 4, [][]tCall{{c(1, 4), c(1, 4)}, {c(2, 4), c(2, 4)}}, blips, -1, 1},
 		{2, 4, [][]tCall{{c(1, 4), c(1, 4)}, {c(2, 4)}}, flap, -1, 1},
 		{5, 10, [][]tCall{{c(1, 10), c(1, 10)}, {c(2, 10), c(2, 10)}}, []string{"down", "up", "one1"}, -1, 1},
+		{2, 4, [][]tCall{{c(1, 4), c(1, 4)}, {c(2, 4)}}, lost2, 1, 2},
+		{2, 4, [][]tCall{{c(1, 4), c(1, 4)}}, restart, 2, 3},
+		{2, 4, [][]tCall{{c(1, 4), c(1, 4)}, {c(2, 4)}}, blipLost, 1, 1},
+		{1, 1, [][]tCall{{c(1, 1), c(1, 1)}, {c(2, 1)}}, restart, -1, 1},
+		{5, 10, [][]tCall{{c(1, 10), c(1, 10)}, {c(2, 10)}}, lostBlipLost, -1, 1},
+		{2, 4, [][]tCall{{c(1, 4), c(1, 4), c(1, 4)}}, []string{"pdown", "pup"}, 2, 3},
+		{2, 4, [][]tCall{{c(1, 4), c(1, 4)}, {c(2, 4)}}, []string{"pdown", "flush", "pup"}, -1, 1},
 	} {
 		p := f.qp
 		if thorough {
